@@ -73,6 +73,7 @@ type v34Exchange struct {
 	ReqBody              int64 // bytes the body reader produces
 	ReqDeclared          int64 // Request.ContentLength
 	ReqChunkMax          int
+	ReqChunkFixed        int // > 0: every Read returns exactly this many bytes (the last one the rest)
 	ReqEOFWithData       bool // last chunk is returned together with io.EOF
 	ReqEOFDelayMs        int  // the body reader pauses that long (virtual) before it reports its end
 	ReqStartDelayMs      int  // the client waits that long (virtual) before it starts the round trip
@@ -92,6 +93,7 @@ type v34Exchange struct {
 	RespBody             int64 // bytes the handler tries to write
 	RespDeclared         int64 // Content-Length set by the handler, -1 none
 	RespChunkMax         int
+	RespChunkFixed       int // > 0: every Write of the handler has exactly this length (the last one the rest)
 	RespFlushPct         int
 	FlushFirst           bool // Flush before the first Write
 	RespTrailersDeclared []v34Field
@@ -102,9 +104,9 @@ type v34Exchange struct {
 
 func (ex *v34Exchange) summary() map[string]any {
 	return map[string]any{"id": ex.ID, "method": ex.Method, "path": ex.RawPath, "query": ex.RawQuery, "req_headers": len(ex.ReqHeaders),
-		"req_kind": ex.ReqKind, "req_body": ex.ReqBody, "req_declared": ex.ReqDeclared, "req_chunk_max": ex.ReqChunkMax, "req_trailers": len(ex.ReqTrailers),
+		"req_kind": ex.ReqKind, "req_body": ex.ReqBody, "req_declared": ex.ReqDeclared, "req_chunk_max": ex.ReqChunkMax, "req_chunk_fixed": ex.ReqChunkFixed, "req_trailers": len(ex.ReqTrailers),
 		"duplex": ex.Duplex, "resp_after_req_bytes": ex.RespAfterReq, "status": ex.Status, "resp_headers": len(ex.RespHeaders), "resp_kind": ex.RespKind, "resp_body": ex.RespBody,
-		"resp_declared": ex.RespDeclared, "resp_chunk_max": ex.RespChunkMax, "flush_pct": ex.RespFlushPct, "flush_first": ex.FlushFirst,
+		"resp_declared": ex.RespDeclared, "resp_chunk_max": ex.RespChunkMax, "resp_chunk_fixed": ex.RespChunkFixed, "flush_pct": ex.RespFlushPct, "flush_first": ex.FlushFirst,
 		"explicit_writeheader": ex.ExplicitWH, "late_mutation": ex.LateMutation, "early_hints": ex.EarlyHints,
 		"resp_trailers_declared": len(ex.RespTrailersDeclared), "resp_trailers_prefix": len(ex.RespTrailersPrefix)}
 }
@@ -429,6 +431,29 @@ func v34GenExchange(rng *rand.Rand, id int, maxBody int64, maxHeaders int) *v34E
 	if ex.RespReadMax < 512 && ex.RespBody > 20000 {
 		ex.RespReadMax = 4096
 	}
+	// Frame payloads of exactly a varint-encoding boundary: chunks of a fixed boundary length, which
+	// transport and server turn into one DATA frame each when nothing else is buffered.
+	fixed := func(body int64) int {
+		var ok []int
+		for _, n := range []int{63, 64, 65, 16383, 16384, 16384, 16385} {
+			if int64(n) <= body {
+				ok = append(ok, n)
+			}
+		}
+		if len(ok) == 0 || rng.IntN(4) != 0 {
+			return 0
+		}
+		if len(ok) > 3 && rng.IntN(4) != 0 {
+			ok = ok[3:]
+		}
+		return ok[rng.IntN(len(ok))]
+	}
+	if f := fixed(ex.ReqBody); f > 0 {
+		ex.ReqChunkFixed, ex.ReqChunkMax = f, max(ex.ReqChunkMax, f)
+	}
+	if f := fixed(ex.RespBody); f > 0 {
+		ex.RespChunkFixed, ex.RespChunkMax = f, max(ex.RespChunkMax, f)
+	}
 	return ex
 }
 
@@ -626,6 +651,9 @@ func (b *v34ReqBody) Read(p []byte) (int, error) {
 		return 0, io.EOF
 	}
 	n := int64(1 + b.rng.IntN(b.ex.ReqChunkMax))
+	if b.ex.ReqChunkFixed > 0 {
+		n = int64(b.ex.ReqChunkFixed)
+	}
 	n = min(n, remain, int64(len(p)))
 	v34Fill(p[:n], uint32(2*b.ex.ID), b.off)
 	b.off += n
@@ -768,6 +796,9 @@ func (run *v34Run) writeResponse(w http.ResponseWriter, ex *v34Exchange, obs *v3
 	var off int64
 	for off < ex.RespBody {
 		n := min(int64(1+rng.IntN(ex.RespChunkMax)), ex.RespBody-off)
+		if ex.RespChunkFixed > 0 {
+			n = min(int64(ex.RespChunkFixed), ex.RespBody-off)
+		}
 		b := buf[:n]
 		v34Fill(b, uint32(2*ex.ID+1), off)
 		wn, err := w.Write(b)
@@ -1584,6 +1615,9 @@ func (run *v34Run) evaluate(st *v34RunStats, r *verifrt.R) {
 				}
 			} else {
 				r.Event("req_bodies_verified", 1)
+				if ex.ReqChunkFixed > 0 {
+					r.Event(fmt.Sprintf("req_bodies_verified_in_chunks_of_%d", ex.ReqChunkFixed), 1)
+				}
 				r.Event("req_body_bytes_verified", so.Body.N)
 				// trailers (only after a body that ended cleanly; a failed read was reported above)
 				for _, f := range ex.ReqTrailers {
@@ -1708,6 +1742,9 @@ func (run *v34Run) evaluate(st *v34RunStats, r *verifrt.R) {
 		default:
 			run.checkBody("response", ex.ID, &co.Body, ex.RespBody, false, desc)
 			r.Event("resp_bodies_verified", 1)
+			if ex.RespChunkFixed > 0 {
+				r.Event(fmt.Sprintf("resp_bodies_verified_in_writes_of_%d", ex.RespChunkFixed), 1)
+			}
 			r.Event("resp_body_bytes_verified", co.Body.N)
 		}
 		// handler-side Write results
